@@ -119,7 +119,7 @@ def run_case(ctx, i):
     rng = ctx.case_rng(i)
     all_d = dialect_names()
     tables = sqlgen.gen_schema(rng)
-    s, kind = stmts.gen_statement(rng, tables)
+    s, kind = stmts.gen_statement(rng, tables, wide_types=True)
     s, _ = add_comments(rng, s, rng.randint(0, 3))
     schema = sqlgen.sqlglot_schema(tables)
     for d in rng.sample(all_d, 2):
